@@ -146,8 +146,8 @@ class ModelPrior:
         self.client = Client()
 
         # Prepare nets for the pdf methods
-        self._pdf_node = augmenter.add_pdf_nodes(model, log=False)[0]
-        self._logpdf_node = augmenter.add_pdf_nodes(model, log=True)[0]
+        self._pdf_node = augmenter.add_pdf_nodes(model, log=False, nodes=self.parameter_names)[0]
+        self._logpdf_node = augmenter.add_pdf_nodes(model, log=True, nodes=self.parameter_names)[0]
 
         self._rvs_net = self.client.compile(model.source_net, outputs=self.parameter_names)
         self._pdf_net = self.client.compile(model.source_net, outputs=self._pdf_node)
